@@ -680,6 +680,12 @@ def function_cells_carry_requirements(ctx):
                         q = op_place(a)
                         if q is not None and any(isinstance(e, dict) and e.get('n') == 'forward_requirements' for e in q['p']):
                             from_func = True
+                    # a helper of the file that reads the field of the function it is given (sorted_forward_requirements(&func))
+                    cal = strip_generics(ct.get('callee') or '')
+                    for hb in mir.by_nid.get(cal, []):
+                        if hb.file == b.file and any(s3['k'] == 'assign' and any(isinstance(e, dict) and e.get('n') == 'forward_requirements' for e in ((s3['rv'].get('place') or {}).get('p') or []) + ((op_place(s3['rv']['op']) or {}).get('p') or [] if isinstance(s3['rv'].get('op'), dict) else [])) for _, _, s3 in hb.stmts()) \
+                                or any(any(op_place(a3) is not None and any(isinstance(e, dict) and e.get('n') == 'forward_requirements' for e in op_place(a3)['p']) for a3 in t3['args']) for _, t3 in hb.calls()):
+                            from_func = True
             r12.inst({'fn': fn, 'cell_built_at': mirq.site(b, i, j), 'requirements_from_the_function': from_func}, ok=from_func, kind=(b.nid, i, j))
             if not from_func:
                 r12.fail('%s/cell-without-requirements' % fn, mirq.site(b, i, j), 'the cell of a declared function is created with a requirement list that does not come from the function: a lambda whose body calls a forward-declared function can be called before the implementation exists (forward fn f(x: int)->int; let g = ()->{f(1)}; let y = g(); fn f(x: int)->int{x} is accepted and instantiation panics: access to uninitialized cell)')
